@@ -29,6 +29,7 @@ EXPLANATION = (
     "method other than the constructor modifies it, so a failing processor cannot make another one miss events. R1 also requires that an async processor method is awaited where it is called, inside its own guard (a coroutine collected for a later gather runs outside the guard and abandons its siblings when one fails)."
     " (R8) nothing under events/ or the runners draws from or seeds the process-global random generator (observer-only code runs in different amounts with and without processors)."
     " R8 also requires that what a step reports (applied outputs, the error) does not depend on the order in which its nodes complete."
+    ' R8 also covers the other state a thread or process shares with node functions: nothing under events/ or the runners calls asyncio.run / set_event_loop, rewrites warning filters, os.environ, the working directory, signal handlers, the recursion limit, trace/profile hooks, the locale, the decimal context or the socket default time-out.'
 )
 NOT_DECIDED = (
     "That a processor which mutates objects reachable from an event (e.g. a list-valued decision) cannot influence the run; timing effects of slow "
